@@ -201,3 +201,142 @@ Proof.
     rewrite <- (map_map fst (vmap (wf W))). apply in_map, Hx.
 Qed.
 End ReachIso.
+
+(* ------------------------------------------------------------------ (c) the restricted world is a world *)
+Lemma nolex_map f l : Forall no_lexenv (map (vmap f) l) -> Forall no_lexenv l.
+Proof.
+  rewrite !Forall_forall. intros H x Hx. apply (no_lexenv_vmap f), H, in_map, Hx.
+Qed.
+Lemma nolex_bcmap f : forall l j, Forall no_lexenv (bcmap f j l) -> Forall no_lexenv l.
+Proof.
+  induction l as [|v r IH]; intros j H; [constructor|]. cbn [bcmap] in H. inversion H as [|? ? Hv Hr]; subst.
+  constructor; [|eapply IH, Hr]. destruct j; [exact Hv|apply (no_lexenv_vmap f), Hv].
+Qed.
+Lemma slot_ok_nolex v : slot_ok v -> no_lexenv v.
+Proof. intros [[p ->]|[_ H]] i E; [discriminate|]. subst v. discriminate. Qed.
+Lemma lexenv_dec c : (exists i, c = VLexEnv i) \/ no_lexenv c.
+Proof. destruct c; try (right; intros j; discriminate). left. eexists. reflexivity. Qed.
+
+Section Shrink.
+Variable W : world.
+Variables s1 s2 : vm.
+Hypothesis R : srel W s1 s2.
+Hypothesis G : gc_natural s2.
+Local Notation W' := (wshrink W s1).
+
+Lemma alive_shrink a : alive W a -> nlive W s1 a -> alive W' a.
+Proof. intros [H|H] N; [left; split; assumption|right; exact H]. Qed.
+
+Lemma held_vlive x : held W s1 x -> no_lexenv x -> vlive W' x.
+Proof.
+  intros H NL. destruct (proj2 (reach_iso W s1 s2 R G) x H) as [[La Li] _]. split.
+  - intros a Ha. apply alive_shrink; [apply La, Ha|eapply nl_val; eassumption].
+  - intros p Hp. split; [apply Li, Hp|].
+    destruct x; cbn [vids In] in Hp; try (destruct Hp as [<-|[]]); try contradiction; cbn [pheld]; try exact H.
+    exfalso. eapply NL. reflexivity.
+Qed.
+
+Lemma cell_vlive a : wa W a -> nlive W s1 a -> vlive W' (cell_at (hp s1) a).
+Proof.
+  intros Ha Na. destruct (lexenv_dec (cell_at (hp s1) a)) as [[i E]|NL].
+  - destruct (sr_cell _ _ _ R a Ha) as [_ [_ Li]]. rewrite E in *. split; [intros x []|].
+    intros p [<-|[]]. split; [apply Li; left; reflexivity|]. exists a. auto.
+  - apply held_vlive; [apply h_cell; assumption|exact NL].
+Qed.
+
+Lemma list_vlive l : (forall x, In x l -> held W s1 x) -> Forall no_lexenv l -> Forall (vlive W') l.
+Proof.
+  rewrite !Forall_forall. intros H NL x Hx. apply held_vlive; [apply H, Hx|apply NL, Hx].
+Qed.
+Lemma lr_shrink l l2 : lr W l l2 -> (forall x, In x l -> held W s1 x) -> Forall no_lexenv l2 -> lr W' l l2.
+Proof.
+  intros [-> _] H NL. split; [reflexivity|]. apply list_vlive; [exact H|eapply nolex_map, NL].
+Qed.
+Lemma bclive_shrink : forall l j, (forall x, bc_in j l x -> vlive W' x) -> bclive W' j l.
+Proof.
+  induction l as [|v r IH]; intros j H; [exact I|]. cbn [bclive]. split.
+  - destruct j; [exact I|]. apply H. left. reflexivity.
+  - apply IH. intros x Hx. apply H. right. exact Hx.
+Qed.
+
+Lemma store_shrink : store_rel W' (st s1) (st s2).
+Proof.
+  destruct (sr_store _ _ _ R) as [A1 A2 A3 A4 A5 A6 A7]. constructor; try assumption.
+  - intros i [Hi (a & Na & Ha & Hc)]. specialize (A4 i Hi).
+    destruct (tget (envs (st s1)) i) as [l|] eqn:E1, (tget (envs (st s2)) i) as [l2|] eqn:E2;
+      cbn [orel] in *; try exact A4.
+    apply lr_shrink; [exact A4| |apply (gn_envs _ G i _ E2)].
+    intros x Hx. eapply h_env; eassumption.
+  - intros i [Hi Ph]. cbn [pheld] in Ph. specialize (A5 i Hi).
+    destruct (tget (vecs (st s1)) i) as [l|] eqn:E1, (tget (vecs (st s2)) i) as [l2|] eqn:E2;
+      cbn [orel] in *; try exact A5.
+    apply lr_shrink; [exact A5| |apply (gn_vecs _ G i _ E2)].
+    intros x Hx. eapply h_vec; eassumption.
+  - intros i [Hi Ph]. cbn [pheld] in Ph. specialize (A6 i Hi).
+    destruct (tget (conts (st s1)) i) as [k|] eqn:E1, (tget (conts (st s2)) i) as [k2|] eqn:E2;
+      cbn [orel] in *; try exact A6.
+    destruct A6 as [-> (L1 & L2 & L3)]. split; [reflexivity|]. split; [|split].
+    + apply list_vlive; [intros x Hx; eapply h_kstack; eassumption|].
+      apply (nolex_map (wf W)). apply (gn_conts _ G i _ E2).
+    + apply alive_shrink; [exact L2|eapply nl_kep; eassumption].
+    + apply alive_shrink; [exact L3|eapply nl_kip; eassumption].
+  - intros i [Hi Ph]. cbn [pheld] in Ph. specialize (A7 i Hi).
+    destruct (tget (lams (st s1)) i) as [l|] eqn:E1, (tget (lams (st s2)) i) as [l2|] eqn:E2;
+      cbn [orel] in *; try exact A7.
+    destruct A7 as [-> (L1 & L2 & L3)]. destruct (gn_lams _ G i _ E2) as (N1 & N2 & N3).
+    cbn [lmap l_bc l_args l_envmap] in N1, N2, N3. split; [reflexivity|]. split; [|split].
+    + apply bclive_shrink. intros x Hx. apply held_vlive; [eapply h_bc; eassumption|].
+      apply nolex_bcmap in N1. rewrite Forall_forall in N1. apply N1. eapply bc_in_In, Hx.
+    + apply list_vlive; [intros x Hx; eapply h_args; eassumption|]. apply (nolex_map (wf W)), N2.
+    + apply list_vlive; [intros x Hx; eapply h_envmap; eassumption|]. apply (nolex_map (wf W)).
+      rewrite map_map in N3. cbn [fst] in N3. rewrite map_map. exact N3.
+Qed.
+
+Theorem collect_shrink vd fuel order h' :
+  reach_allocated s2 -> no_used (hp s2) -> Permutation order (map fst (g_bind s2)) ->
+  collect vd fuel order s2 = Ok h' ->
+  (forall a, wa W' a -> wa W a /\ wf W' a = wf W a /\ reach s2 (wf W a)) /\
+  srel W' s1 (with_heap s2 h').
+Proof.
+  intros ND Hnu P H. destruct (reach_iso W s1 s2 R G) as [RA RV].
+  split; [intros a [Ha Na]; split; [exact Ha|split; [reflexivity|apply RA; assumption]]|].
+  assert (Live : forall a, wa W a -> nlive W s1 a ->
+            g_get (gcmap h') (wf W a) = GAllocated /\ cell_at h' (wf W a) = cell_at (hp s2) (wf W a)).
+  { intros a Ha Na. destruct (sr_al2 _ _ _ R a Ha) as [L _].
+    apply (gc_preserves_live vd fuel order s2 h' Hnu H _ L).
+    apply (reach_perm s2 order _ P). apply RA; assumption. }
+  assert (HI : heap_inv h').
+  { apply (heap_inv_collect vd fuel order s2 h' (sr_hi2 _ _ _ R) Hnu); [|exact H].
+    intros a L Ra. apply ND; [exact L|]. apply (reach_perm s2 order a P), Ra. }
+  pose proof (collect_hlen _ _ _ _ _ H) as Hl.
+  constructor; sr_simpl; cbn [wshrink wa wi wf wtop].
+  - apply (sr_null _ _ _ R).
+  - apply (sr_b1 _ _ _ R).
+  - intros a b [Ha _] [Hb _]. apply (sr_inj _ _ _ R); assumption.
+  - intros a [Ha _]. apply (sr_al1 _ _ _ R), Ha.
+  - intros a [Ha Na]. destruct (Live a Ha Na) as [E _]. destruct (sr_al2 _ _ _ R a Ha) as [L _].
+    split; [rewrite Hl; exact L|rewrite E; discriminate].
+  - apply (sr_hi1 _ _ _ R).
+  - exact HI.
+  - intros a [Ha Na]. destruct (Live a Ha Na) as [_ C]. rewrite C.
+    destruct (sr_cell _ _ _ R a Ha) as [E _]. split; [exact E|apply cell_vlive; assumption].
+  - exact store_shrink.
+  - destruct (sr_bind _ _ _ R) as [E K]. split; [exact E|].
+    intros x Hx. split; [apply K, Hx|apply nl_bind, Hx].
+  - apply lr_shrink; [apply (sr_slots _ _ _ R)|intros x Hx; apply h_slot, Hx|].
+    eapply Forall_impl; [|apply (gn_slots _ G)]. intros v. apply slot_ok_nolex.
+  - intros i Hi. pose proof (sr_top _ _ _ R) as Ht. destruct (sr_stack _ _ _ R i ltac:(lia)) as [E _].
+    split; [exact E|]. apply held_vlive; [apply h_stack, Hi|].
+    apply (no_lexenv_vmap (wf W)). rewrite <- E. apply (gn_stack _ G). rewrite (sr_sp _ _ _ R). exact Hi.
+  - lia.
+  - apply (sr_scap _ _ _ R).
+  - apply (sr_sp _ _ _ R).
+  - apply (sr_bp _ _ _ R).
+  - destruct (sr_ep _ _ _ R) as [E L]. split; [exact E|apply alive_shrink; [exact L|apply nl_ep]].
+  - destruct (sr_ip _ _ _ R) as [[E L] E']. split; [|exact E'].
+    split; [exact E|apply alive_shrink; [exact L|apply nl_ip]].
+  - destruct (sr_acc _ _ _ R) as [E _]. split; [exact E|]. apply held_vlive; [apply h_acc|].
+    apply (no_lexenv_vmap (wf W)). rewrite <- E. apply (gn_acc _ G).
+  - apply (sr_log _ _ _ R).
+Qed.
+End Shrink.
